@@ -10,7 +10,17 @@ NARY = {'or': 'WorkCalendarDisjunction', 'add': 'WorkCalendarSum', 'sub': 'WorkC
         'mul': 'WorkCalendarsMul', 'div': 'WorkCalendarDiv'}
 
 
+DIRECT = []     # the DirectCalendar objects of the expression, in build order (edited in place by a case's 'edit')
+
+
 def build(e):
+    c = build1(e)
+    if isinstance(c, DirectCalendar):
+        DIRECT.append(c)
+    return c
+
+
+def build1(e):
     k = e[0]
     if k == 'wdays':
         _, st, en, days, u = e
@@ -56,6 +66,7 @@ def observe(fn):
 
 def run_case(case):
     out = {}
+    del DIRECT[:]
     try:
         cal = build(case['expr'])
         out['build'] = 0
@@ -68,6 +79,15 @@ def run_case(case):
     out['units'] = [observe(lambda: num_out(res.get_available_units(from_us(t)))) for t in case['units']]
     out['search'] = [observe(lambda: to_us(res.get_nearest_availability_date(from_us(t), d, n)))
                      for t, d, n in case['search']]
+    if case.get('edit'):
+        # the calendars are mutable objects: edit DirectCalendars of the expression in place and ask the SAME calendar
+        # and the SAME resource object again (a resource or combinator that remembers answers is wrong now)
+        for i, more in case['edit']:
+            DIRECT[i].set_units({from_us(t): num_in(v) for t, v in more})
+        out['evals2'] = [observe(lambda: num_out(cal.get_available_units(from_us(t)))) for t in case['evals']]
+        out['units2'] = [observe(lambda: num_out(res.get_available_units(from_us(t)))) for t in case['units']]
+        out['search2'] = [observe(lambda: to_us(res.get_nearest_availability_date(from_us(t), d, n)))
+                          for t, d, n in case['search']]
     return out
 
 
